@@ -258,8 +258,11 @@ func runC01(c *Ctx) {
 					}
 				}
 			})
-			if keygen == nil {
-				c.Fail("C01.R3", "anchor:shortcut key generator", ta.Pos(), "unresolved anchor: TryAdd calls no function returning []string")
+			if keygen == nil && len(append(callsToG(c.P, ta, fhb), callsToG(c.P, ta, fh)...)) > 0 {
+				// no list of windows is materialised: the windows of the shortcut are hashed in place
+				checkInPlaceKeys(c, ta, fh, fhb, Kprobe)
+			} else if keygen == nil {
+				c.Fail("C01.R3", "anchor:shortcut key generator", ta.Pos(), "unresolved anchor: TryAdd calls no function returning []string and hashes no window in place")
 			} else {
 				// the generator is evaluated as part of TryAdd (whatever it is handed: the rule or its
 				// shortcut), so that its keys are stated in terms of TryAdd's rule
@@ -746,4 +749,121 @@ func checkDomainTryAdd(c *Ctx, rule string, ta, fh *ssa.Function) {
 	}
 	c.Check(found, rule, key, ta.Pos(), "complete pre-scan of permittedDomains returns false on a value ending in \".*\"; keys are stored only after the scan is exhausted",
 		"a rule whose $domain list has a wildcard-TLD value (google.*) is exact-keyed: the probe hashes only real dot-suffixes of the source hostname, so the rule is never found although Match accepts it")
+}
+
+// callsToG: the call sites of callee in fn and in the helpers outside the vocabulary it uses.
+func callsToG(p *Prog, fn, callee *ssa.Function) []ssa.Instruction {
+	var out []ssa.Instruction
+	eachInstrG(p, fn, func(_ *ssa.BasicBlock, in ssa.Instruction) {
+		if ci, ok := in.(ssa.CallInstruction); ok && ci.Common().StaticCallee() == callee {
+			out = append(out, in)
+		}
+	})
+	return out
+}
+
+// checkInPlaceKeys is the insert side of C01.R3 for a TryAdd that hashes the windows of the rule's
+// shortcut where they are (FastHashBetween(f.Shortcut, i, i+K) or FastHash(f.Shortcut[i:i+K]) in a
+// counted loop) instead of building the list of windows first: same width as the probe, complete
+// enumeration, every window hashed, the stored key is one of these hashes, and a key is stored only
+// when at least one window exists.
+func checkInPlaceKeys(c *Ctx, ta, fh, fhb *ssa.Function, Kprobe int64) {
+	g := NewGate(c.P)
+	g.Inline = inlineOnly()
+	s := g.Eval(ta)
+	u := g.U
+	c.Fn(FuncName(ta))
+	ruleP := g.ParamExprs(ta)[1]
+	n := 0
+	var srcLen *E
+	hashVals := map[*E]bool{}
+	for ei := range s.Effects {
+		_ = ei
+	}
+	for _, li := range loopInsts(g, s) {
+		for b := range li.L.Blocks {
+			for _, in := range b.Instrs {
+				cl, ok := in.(*ssa.Call)
+				if !ok || (cl.Call.StaticCallee() != fh && cl.Call.StaticCallee() != fhb) {
+					continue
+				}
+				if il := innermostLoop(loopsOf(li.Act.Fn), b); il == nil || il.Header != li.L.Header {
+					continue
+				}
+				ce := li.Act.Env[cl]
+				if ce == nil {
+					continue
+				}
+				var str, lo, hi *E
+				switch {
+				case ce.Aux == calleeName(fhb) && len(ce.Args) >= 3:
+					str, lo, hi = ce.Args[0], ce.Args[1], ce.Args[2]
+				case ce.Aux == calleeName(fh) && len(ce.Args) >= 1 && ce.Args[0].Op == "slice" && ce.Args[0].Args[1] != nil && ce.Args[0].Args[2] != nil:
+					str, lo, hi = ce.Args[0].Args[0], ce.Args[0].Args[1], ce.Args[0].Args[2]
+				default:
+					c.Fail("C01.R3", "ShortcutsTable.TryAdd: key windows", cl.Pos(), "UNDECIDED: the hashed value is not a window s[lo:hi]: "+clip(u.Show(ce), 100))
+					continue
+				}
+				n++
+				hashVals[ce] = true
+				ct := countedLoop(u, li.Act, li.L)
+				if ct == nil {
+					c.Fail("C01.R3", "ShortcutsTable.TryAdd: key windows", cl.Pos(), "UNDECIDED: not a counted loop")
+					continue
+				}
+				K, okK := constDiff(u, lo, hi, ct.Idx)
+				d, okD := constDiff(u, ct.Idx, lo, ct.Idx)
+				okSrc := str.Op == "field" && str.Aux == "Shortcut" && str.Args[0] == ruleP
+				c.Check(okK && okD && okSrc && K == Kprobe, "C01.R3", "shortcut key generator: keys are windows of the shortcut of the probe width", cl.Pos(),
+					fmt.Sprintf("Shortcut[i:i+%d] hashed in place, probe width %d", K, Kprobe),
+					fmt.Sprintf("keys are windows [%s, %s) of %s (width %d, constant=%v) but the probe hashes windows of width %d of the request field: no URL window can ever hit", clip(u.Show(lo), 40), clip(u.Show(hi), 40), clip(u.Show(str), 40), K, okK, Kprobe))
+				if okK && okD {
+					srcLen = u.Len(str)
+					why := windowsCompleteAt(u, ct, u.Len(str), K, d)
+					if why == "" && li.Act.RCAt(cl) != u.bdd.And(li.Act.RC[li.L.Header], ct.Cont) {
+						why = "a window is skipped conditionally"
+					}
+					c.Check(why == "", "C01.R3", "shortcut key generator: every window of the shortcut is a candidate key", cl.Pos(), "complete enumeration", why)
+				}
+			}
+		}
+	}
+	if n == 0 {
+		c.Fail("C01.R3", "shortcut key generator: windows", ta.Pos(), "UNDECIDED: no window of the shortcut is hashed in a loop")
+		return
+	}
+	okKey := ""
+	nUpd := 0
+	for ei := range s.Effects {
+		mef := &s.Effects[ei]
+		if mef.Kind != "mapupdate" || !(mef.Addr.Op == "field" && strings.Contains(mef.Addr.Aux, "LookupTable")) {
+			continue
+		}
+		mu, ok := mef.Ins.(*ssa.MapUpdate)
+		if !ok {
+			continue
+		}
+		nUpd++
+		for _, leaf := range provLeaves(g, AV{mef.Act, mu.Key}) {
+			switch x := leaf.V.(type) {
+			case *ssa.Const:
+			case *ssa.Call:
+				if !hashVals[leaf.Act.Env[x]] {
+					okKey = "the stored key is not one of the window hashes: " + x.String()
+				}
+			default:
+				okKey = "UNDECIDED: key derived from " + leaf.V.String()
+			}
+		}
+		if srcLen != nil && okKey == "" && Kprobe > 0 {
+			tooShort := u.ToBool(u.Lt(srcLen, u.Int(Kprobe)))
+			if !u.bdd.Implies(mef.Cond, u.bdd.Not(tooShort)) {
+				okKey = "the key can be stored although the shortcut has no window (hash 0 bucket)"
+			}
+		}
+	}
+	if nUpd == 0 {
+		okKey = "UNDECIDED: TryAdd updates no lookup map"
+	}
+	c.Check(okKey == "", "C01.R3", "ShortcutsTable.TryAdd: stored key = FastHash(one generated window)", ta.Pos(), "provenance of the map key", okKey)
 }
